@@ -7,6 +7,7 @@ CONSTANTS
   MaxFail = 2
   AllowOk = TRUE
   StopInRetry = TRUE
+  Relay = FALSE
   RecordHist = FALSE
 INVARIANTS TypeOK InOrderNoGapNoDup OnePerHeader ClosesOnlyWhen
 PROPERTIES RetryNotSkip NoSendAfterClose
